@@ -77,6 +77,10 @@ func verifC09Frame(s *Session, mac net.HardwareAddr, ip netip.Addr) []byte {
 	return b
 }
 
+// verifC09Pending: a frame already parsed by the packet loop whose notification is still pending (set up before the
+// goroutines start); operation 17 delivers it.
+var verifC09Pending Frame
+
 func verifC09Op(s *Session, op int, v int) {
 	mac := verifC09MAC1
 	ip := verifC09IP1
@@ -137,6 +141,8 @@ func verifC09Op(s *Session, op int, v int) {
 		}
 	case 14:
 		s.Close()
+	case 17: // Notify alone (the Parse that precedes it ran before the other goroutine started)
+		s.Notify(verifC09Pending)
 	case 15: // the two DHCP offer accessors on their own (no incidental synchronisation between them)
 		_ = s.DHCPv4IPOffer(mac)
 	case 16:
@@ -161,6 +167,15 @@ func VerifC09Pair(a, va, b, vb int) {
 	s := verifSession(false)
 	s.Conn = verifNullConn{}
 	verifC09State(s)
+	if a == 17 || b == 17 {
+		mac, ip := verifC09MAC1, verifC09IP2
+		if va+vb == 4 {
+			mac, ip = verifC09MAC3, verifC09IP4
+		}
+		f, err := s.Parse(verifC09Frame(s, mac, ip))
+		verifAssume(err == nil)
+		verifC09Pending = f
+	}
 	var wg sync.WaitGroup
 	wg.Add(2)
 	go func() {
